@@ -228,6 +228,12 @@ private:
       }
       vec.emplace_back(partition);
     }
+    if (vec.empty()) {
+      // All partitions are bottom. We cannot leave m_partitions empty:
+      // is_top() would hold and merge_partitions() raises an error.
+      set_to_bottom();
+      return;
+    }
     std::swap(m_partitions, vec);
 
     // update partitions
